@@ -336,7 +336,37 @@ fn parent(prop: &str, tier: Tier) -> i32 {
             }
         }
     }
-    let merged = merge(results);
+    let mut merged = merge(results);
+    // E4: crash artifacts of a coverage-guided campaign run by the check script (thorough tier)
+    let fuzz_summary = out_dir.parent().unwrap().join("fuzz").join(format!("{prop}.json"));
+    if let Some(sum) = std::fs::read(&fuzz_summary).ok().and_then(|b| serde_json::from_slice::<Value>(&b).ok()) {
+        for t in sum["targets"].as_array().cloned().unwrap_or_default() {
+            let name = t["name"].as_str().unwrap_or("").to_string();
+            let sub = t["sub"].as_str().unwrap_or("").to_string();
+            *merged.counters.entry(format!("fuzz-execs:{name}")).or_default() += t["execs"].as_u64().unwrap_or(0);
+            extra_assumptions.push(format!("coverage-guided campaign {name}: {} executions, {} crash artifacts (libFuzzer, -seed derived from VERIF_SEED; approximately reproducible, saved inputs are the reproducible unit)", t["execs"], t["artifacts"].as_array().map(|a| a.len()).unwrap_or(0)));
+            for a in t["artifacts"].as_array().cloned().unwrap_or_default() {
+                let Some(path) = a.as_str() else { continue };
+                let Ok(bytes) = std::fs::read(path) else { continue };
+                let case = serde_json::json!({ "bytes": bytes });
+                match props::replay(prop, &sub, &case) {
+                    Verdict::Violation { signature, detail } => {
+                        if let Some(k) = known.matches(prop, &signature) {
+                            known_lines.insert(signature, k.what.clone());
+                        } else {
+                            let dir = verif_root().join("out").join("violations");
+                            let _ = std::fs::create_dir_all(&dir);
+                            let p = dir.join(format!("{prop}-{sub}-{:016x}.json", fingerprint(&bytes)));
+                            let _ = std::fs::write(&p, serde_json::to_vec_pretty(&serde_json::json!({"property": prop, "sub": sub, "signature": signature, "detail": detail, "case": case})).unwrap());
+                            eprintln!("violation [{sub}] {signature}: {detail}");
+                            violations.push((signature, p.to_string_lossy().into_owned()));
+                        }
+                    }
+                    _ => inconclusive.push(format!("fuzz artifact {path} does not reproduce through the oracle")),
+                }
+            }
+        }
+    }
     {
         let mut shown = std::collections::BTreeSet::new();
         for f in &merged.failures {
